@@ -588,6 +588,9 @@ func offCurve(r *hx.Rand, k KeyInfo) []byte {
 		}
 	}
 	out := append([]byte{}, unc...)
+	if len(out) < 9 { // key type without an uncompressed point encoding (e.g. Ed25519): use the canonical bytes unchanged
+		return append([]byte{}, encs[0]...)
+	}
 	out[len(out)-1-r.Intn(8)] ^= byte(1 << uint(r.Intn(8)))
 	return out
 }
